@@ -167,6 +167,9 @@ def c08(run):
     # the router-level rules (unknown method, same method twice for a path - through Routes lists with "*", Any, Combo):
     # random registration programs, panic / no panic and every request validated against the flat expansion
     rg_random(run, 300 if quick else 20000, label="rg_router_level")
+    # registrations through Any / Routes / Get under AutoHead, among them calls that are rejected part-way and the
+    # single-method registrations that follow them: acceptance is a per-method question
+    rt_random(run, "rand_multi", "hdr", 250 if quick else 15000)
     return run.finish(rule=RT_RULE + " Router-level rejection (unknown method, a method registered twice for one path through "
                       "Routes lists incl. \"*\", Any, Combo) is validated on random registration programs by RegistrarTrace.",
                       extra_assumptions=RT_ASSUME)
